@@ -5,6 +5,7 @@ import (
 	"bytes"
 	"errors"
 	"fmt"
+	"math"
 	"regexp"
 	"strconv"
 	"strings"
@@ -223,7 +224,7 @@ func parseWeight(s string) (float64, error) {
 		return 0, nil
 	}
 	f, err := strconv.ParseFloat(s, 64)
-	if err != nil {
+	if err != nil || math.IsNaN(f) || math.IsInf(f, 0) {
 		return 0.0, errors.New("syntax error: weight value invalid")
 	}
 	return f, nil
